@@ -90,7 +90,7 @@ def run(tier, seed):
     need = {"type", "access", "undeclared", "redeclared", "new-abstract", "new-static", "final-var", "final-field", "final-nested", "final-twice",
             "final-inherited", "final-has-init", "final-unassigned", "void-value", "void-operand", "void-variable", "void-parameter",
             "static-context", "this-outside-class", "null-nonclass", "null-operator", "return-value-in-void", "bare-return-in-non-void",
-            "quantum-return", "shots-not-main", "final-uninitialised"}
+            "quantum-return", "shots-not-main", "final-uninitialised", "implicit-super"}
     missing = need - set(rules)
     if missing:
         raise vlib.Infra("rules never exercised by a rejecting case: %s" % sorted(missing))
